@@ -2,12 +2,16 @@ package main
 
 import (
 	"fmt"
-	"regexp"
+	"math"
 	"sort"
 	"strings"
+	"unicode/utf8"
 
 	"github.com/anz-bank/sysl/pkg/arrai/relmod"
 	"github.com/anz-bank/sysl/pkg/sysl"
+	"github.com/arr-ai/arrai/rel"
+
+	"verifharness/common"
 )
 
 // ---- projection of a *sysl.Module and of the observed *relmod.Schema to the terms of Verif.Relmod.Model ----
@@ -20,7 +24,7 @@ type interner struct {
 	seen   map[string]bool
 	ids    map[string]int
 	frozen bool
-	retOK  bool // every return payload of the module was readable by readPayload
+	retOK  bool // every return payload of the module lies in the modelled fragment (no backslash, no "{")
 }
 
 var constNames = []string{"", "...", "any", "method", "path", "query"}
@@ -117,7 +121,63 @@ type unprojectable struct{ why string }
 
 func bail(why string) { panic(unprojectable{why}) }
 
-func (in *interner) attrs(a map[string]*sysl.Attribute) string {
+// a float64 as m * 2^e with m odd (0 0 for zero): the form Payload.f64_of_Z / AVNum / RVNum use
+func f64Term(f float64) (string, string) {
+	if math.IsNaN(f) || math.IsInf(f, 0) {
+		bail("annotation value NaN / Inf")
+	}
+	if f == 0 {
+		return "0%Z", "0%Z"
+	}
+	fr, ex := math.Frexp(f) // f = fr * 2^ex, 0.5 <= |fr| < 1
+	m := int64(fr * (1 << 53))
+	e := int64(ex - 53)
+	for m%2 == 0 {
+		m /= 2
+		e++
+	}
+	return gz(m), gz(e)
+}
+
+func (in *interner) aval(a *sysl.Attribute) string {
+	switch v := a.GetAttribute().(type) {
+	case *sysl.Attribute_S:
+		return "(AVStr " + in.name(v.S) + ")"
+	case *sysl.Attribute_I:
+		return "(AVInt " + gz(v.I) + ")"
+	case *sysl.Attribute_N:
+		m, e := f64Term(v.N)
+		return fmt.Sprintf("(AVNum %s %s)", m, e)
+	case *sysl.Attribute_A:
+		var it []string
+		for _, el := range v.A.GetElt() {
+			if el == nil {
+				bail("nil array element")
+			}
+			it = append(it, in.aval(el))
+		}
+		return "(AVArr " + glist(it) + ")"
+	}
+	bail("attribute without a value")
+	return ""
+}
+
+func (in *interner) src(sc *sysl.SourceContext) string {
+	if sc == nil || sc.Start == nil || sc.End == nil {
+		bail("source context without positions") // relmodSourceContext dereferences them
+	}
+	return fmt.Sprintf("(Sc %s [%d;%d;%d;%d]%%N)", in.name(sc.File), int(sc.Start.Line), int(sc.Start.Col), int(sc.End.Line), int(sc.End.Col))
+}
+func (in *interner) srcs(l []*sysl.SourceContext) string {
+	it := make([]string, len(l))
+	for i, sc := range l {
+		it[i] = in.src(sc)
+	}
+	return glist(it)
+}
+
+// attrs: what a normalize*Meta function reads of an element - Attrs and SourceContexts
+func (in *interner) attrs(a map[string]*sysl.Attribute, scs []*sysl.SourceContext) string {
 	var tags, annos []string
 	if p, ok := a["patterns"]; ok {
 		arr, isA := p.GetAttribute().(*sysl.Attribute_A)
@@ -140,7 +200,11 @@ func (in *interner) attrs(a map[string]*sysl.Attribute) string {
 		}
 	}
 	sort.Sort(sort.Reverse(sort.StringSlice(annos)))
-	return fmt.Sprintf("(At %s %s)", in.names(tags), in.names(annos))
+	it := make([]string, len(annos))
+	for i, n := range annos {
+		it[i] = fmt.Sprintf("(An %s %s %s)", in.name(n), in.aval(a[n]), in.srcs(a[n].SourceContexts))
+	}
+	return fmt.Sprintf("(At %s %s %s)", in.names(tags), glist(it), in.srcs(scs))
 }
 
 func (in *interner) optApp(a *sysl.AppName) string {
@@ -190,7 +254,7 @@ func (in *interner) param(name string, t *sysl.Type) string {
 	if t == nil {
 		return fmt.Sprintf("(Pa %s None)", in.name(name))
 	}
-	return fmt.Sprintf("(Pa %s (Some (PT %s %s %s)))", in.name(name), in.mtype(t), gb(t.Opt), in.attrs(t.Attrs))
+	return fmt.Sprintf("(Pa %s (Some (PT %s %s %s)))", in.name(name), in.mtype(t), gb(t.Opt), in.attrs(t.Attrs, t.SourceContexts))
 }
 
 // payload classes of the model: the harness knows which forms the embedded grammar refuses only by observation,
@@ -199,7 +263,7 @@ func (in *interner) stmt(s *sysl.Statement, payBad func(string) bool) string {
 	if s == nil {
 		bail("nil statement")
 	}
-	at := in.attrs(s.Attrs)
+	at := in.attrs(s.Attrs, s.SourceContexts)
 	blk := func(k, t string, body []*sysl.Statement) string {
 		return fmt.Sprintf("(SB %s %s %s %s)", k, in.name(t), at, in.stmts(body, payBad))
 	}
@@ -222,18 +286,18 @@ func (in *interner) stmt(s *sysl.Statement, payBad func(string) bool) string {
 	case *sysl.Statement_Group:
 		return blk("BGroup", x.Group.GetTitle(), x.Group.GetStmt())
 	case *sysl.Statement_Ret:
-		p := ""
-		if x.Ret.GetPayload() == "" {
-			p = "PayEmpty"
-		} else if payBad(x.Ret.Payload) {
-			p = "PayBad"
-		} else if st, rt, ok := readPayload(x.Ret.Payload); ok {
-			p = fmt.Sprintf("(PayGood %s %s)", in.name(st), in.rtype(rt))
-		} else {
+		// the payload text goes to the model's own reader (Payload.parse_payload); a module holding a payload outside
+		// the modelled fragment hands all of them over as observed classes
+		if !inFragment(x.Ret.GetPayload()) {
 			in.retOK = false
-			p = "(PayGood " + in.name("") + " None)"
 		}
-		return fmt.Sprintf("(SL (LRet %s) %s %s)", p, in.name(""), at)
+		if in.retOK {
+			return fmt.Sprintf("(SL (LRet %s) %s %s)", common.GBytes(x.Ret.GetPayload()), in.name(""), at)
+		}
+		if x.Ret.GetPayload() == "" {
+			return fmt.Sprintf("(SL (LRet []) %s %s)", in.name(""), at)
+		}
+		return fmt.Sprintf("(SL (LRetOpaque %s) %s %s)", gb(payBad(x.Ret.Payload)), in.name(""), at)
 	case *sysl.Statement_Alt:
 		var chs []string
 		for _, ch := range x.Alt.GetChoice() {
@@ -285,7 +349,7 @@ func (in *interner) fields(defs map[string]*sysl.Type) string {
 			}
 			cs = append(cs, fmt.Sprintf("(Co %s %s %s)", ln, gz(int64(c.Precision)), gz(int64(c.Scale))))
 		}
-		it = append(it, fmt.Sprintf("(Fi %s %s %s %s %s)", in.name(fn), in.mtype(f), gb(f.Opt), glist(cs), in.attrs(f.Attrs)))
+		it = append(it, fmt.Sprintf("(Fi %s %s %s %s %s)", in.name(fn), in.mtype(f), gb(f.Opt), glist(cs), in.attrs(f.Attrs, f.SourceContexts)))
 	}
 	return glist(it)
 }
@@ -311,7 +375,7 @@ func (in *interner) module(m *sysl.Module, payBad func(string) bool) string {
 			if mx == nil || mx.Name == nil {
 				bail("mixin without a name")
 			}
-			mix = append(mix, fmt.Sprintf("(%s, %s)", in.names(mx.Name.Part), in.attrs(mx.Attrs)))
+			mix = append(mix, fmt.Sprintf("(%s, %s)", in.names(mx.Name.Part), in.attrs(mx.Attrs, mx.SourceContexts)))
 		}
 		for _, en := range revKeys(app.Endpoints) {
 			ep := app.Endpoints[en]
@@ -345,7 +409,7 @@ func (in *interner) module(m *sysl.Module, payBad func(string) bool) string {
 				rest = fmt.Sprintf("(Some (%s, %s, %s, %s))", in.name(ep.RestParams.Method.String()), in.name(ep.RestParams.Path), glist(up), glist(qp))
 			}
 			eps = append(eps, fmt.Sprintf("(Ep %s %s %s %s %s %s %s %s %s)", in.name(ep.Name), in.name(ep.LongName), in.name(ep.Docstring), gb(ep.IsPubsub), src, rest,
-				glist(ps), in.attrs(ep.Attrs), in.stmts(ep.Stmt, payBad)))
+				glist(ps), in.attrs(ep.Attrs, ep.SourceContexts), in.stmts(ep.Stmt, payBad)))
 		}
 		for _, tn := range revKeys(app.Types) {
 			t := app.Types[tn]
@@ -368,16 +432,16 @@ func (in *interner) module(m *sysl.Module, payBad func(string) bool) string {
 				}
 				def = "(DEnum " + glist(it) + ")"
 			}
-			tys = append(tys, fmt.Sprintf("(Td %s %s %s %s %s)", in.name(tn), in.name(t.Docstring), gb(t.Opt), def, in.attrs(t.Attrs)))
+			tys = append(tys, fmt.Sprintf("(Td %s %s %s %s %s)", in.name(tn), in.name(t.Docstring), gb(t.Opt), def, in.attrs(t.Attrs, t.SourceContexts)))
 		}
 		for _, vn := range revKeys(app.Views) {
 			v := app.Views[vn]
 			if v == nil || v.RetType == nil {
 				bail("view without a return type")
 			}
-			vws = append(vws, fmt.Sprintf("(Vi %s %s %s)", in.name(vn), in.mtype(v.RetType), in.attrs(v.Attrs)))
+			vws = append(vws, fmt.Sprintf("(Vi %s %s %s)", in.name(vn), in.mtype(v.RetType), in.attrs(v.Attrs, v.SourceContexts)))
 		}
-		apps = append(apps, fmt.Sprintf("(Ap %s %s %s %s %s\n  %s\n  %s\n  %s)", in.names(app.Name.Part), in.name(app.LongName), in.name(app.Docstring), in.attrs(app.Attrs), glist(mix), glist(eps), glist(tys), glist(vws)))
+		apps = append(apps, fmt.Sprintf("(Ap %s %s %s %s %s %s\n  %s\n  %s\n  %s)", in.names(app.Name.Part), gstrs(app.Name.Part), in.name(app.LongName), in.name(app.Docstring), in.attrs(app.Attrs, app.SourceContexts), glist(mix), glist(eps), glist(tys), glist(vws)))
 	}
 	return glist(apps)
 }
@@ -453,6 +517,14 @@ func (in *interner) rows(s *relmod.Schema) string {
 		out = append(out, fmt.Sprintf("R %s %s %s %s %s %s", rel, in.names(app), names, gpath(path), gzs(nums), ty))
 	}
 	cat := func(a []string, b ...string) []string { return append(append([]string{}, a...), b...) }
+	addx := func(rel string, app []string, names string, path []int, nums []int64, x string) {
+		out = append(out, fmt.Sprintf("RX %s %s %s %s %s %s", rel, in.names(app), names, gpath(path), gzs(nums), x))
+	}
+	val := func(v interface{}) string { return "(XVal " + in.rval(v) + ")" }
+	src := func(first relmod.SourceContext, all []relmod.SourceContext) string {
+		return fmt.Sprintf("(XSrc %s %s)", in.osrc(first), in.osrcs(all))
+	}
+	srcs := func(all []relmod.SourceContext) string { return "(XSrcs " + in.osrcs(all) + ")" }
 	for _, r := range s.App {
 		add("RApp", r.AppName, in.names([]string{r.AppLongName, r.AppDocstring}), nil, nil, "TyNil")
 	}
@@ -474,12 +546,11 @@ func (in *interner) rows(s *relmod.Schema) string {
 	}
 	for _, r := range s.Stmt {
 		code, text := in.stmtCodeText(r)
-		ty := "TyNil"
 		if code == 8 {
-			text = r.StmtRet.Status
-			ty = in.oty(r.StmtRet.Type)
+			addx("RStmt", r.AppName, in.names([]string{r.EpName, ""}), r.StmtIndex, []int64{code}, retTerm(r.StmtRet))
+			continue
 		}
-		add("RStmt", r.AppName, in.names([]string{r.EpName, text}), r.StmtIndex, []int64{code}, ty)
+		add("RStmt", r.AppName, in.names([]string{r.EpName, text}), r.StmtIndex, []int64{code}, "TyNil")
 	}
 	for _, r := range s.Type {
 		add("RType", r.AppName, in.names([]string{r.TypeName, r.TypeDocstring}), nil, []int64{b2z(r.TypeOpt)}, "TyNil")
@@ -534,33 +605,89 @@ func (in *interner) rows(s *relmod.Schema) string {
 	for _, r := range s.Tag.View {
 		add("(RTag OView)", r.AppName, in.names([]string{r.ViewName, r.ViewTag}), nil, nil, "TyNil")
 	}
-	// annotations (names only: values are compared by the Go oracle)
+	// annotations with their values
 	for _, r := range s.Anno.App {
-		add("(RAnno OApp)", r.AppName, in.names([]string{r.AppAnnoName}), nil, nil, "TyNil")
+		addx("(RAnno OApp)", r.AppName, in.names([]string{r.AppAnnoName}), nil, nil, val(r.AppAnnoValue))
 	}
 	for _, r := range s.Anno.Mixin {
-		add("(RAnno OMixin)", r.AppName, in.names(cat(r.MixinName, r.MixinAnnoName)), nil, nil, "TyNil")
+		addx("(RAnno OMixin)", r.AppName, in.names(cat(r.MixinName, r.MixinAnnoName)), nil, nil, val(r.MixinAnnoValue))
 	}
 	for _, r := range s.Anno.Ep {
-		add("(RAnno OEp)", r.AppName, in.names([]string{r.EpName, r.EpAnnoName}), nil, nil, "TyNil")
+		addx("(RAnno OEp)", r.AppName, in.names([]string{r.EpName, r.EpAnnoName}), nil, nil, val(r.EpAnnoValue))
 	}
 	for _, r := range s.Anno.Param {
-		add("(RAnno OParam)", r.AppName, in.names([]string{r.EpName, r.ParamName, r.ParamLoc, r.ParamAnnoName}), nil, []int64{int64(r.ParamIndex)}, "TyNil")
+		addx("(RAnno OParam)", r.AppName, in.names([]string{r.EpName, r.ParamName, r.ParamLoc, r.ParamAnnoName}), nil, []int64{int64(r.ParamIndex)}, val(r.ParamAnnoValue))
 	}
 	for _, r := range s.Anno.Stmt {
-		add("(RAnno OStmt)", r.AppName, in.names([]string{r.EpName, r.StmtAnnoName}), r.StmtIndex, nil, "TyNil")
+		addx("(RAnno OStmt)", r.AppName, in.names([]string{r.EpName, r.StmtAnnoName}), r.StmtIndex, nil, val(r.StmtAnnoValue))
 	}
 	for _, r := range s.Anno.Event {
-		add("(RAnno OEvent)", r.AppName, in.names([]string{r.EventName, r.EventAnnoName}), nil, nil, "TyNil")
+		addx("(RAnno OEvent)", r.AppName, in.names([]string{r.EventName, r.EventAnnoName}), nil, nil, val(r.EventAnnoValue))
 	}
 	for _, r := range s.Anno.Type {
-		add("(RAnno OType)", r.AppName, in.names([]string{r.TypeName, r.TypeAnnoName}), nil, nil, "TyNil")
+		addx("(RAnno OType)", r.AppName, in.names([]string{r.TypeName, r.TypeAnnoName}), nil, nil, val(r.TypeAnnoValue))
 	}
 	for _, r := range s.Anno.Field {
-		add("(RAnno OField)", r.AppName, in.names([]string{r.TypeName, r.FieldName, r.FieldAnnoName}), nil, nil, "TyNil")
+		addx("(RAnno OField)", r.AppName, in.names([]string{r.TypeName, r.FieldName, r.FieldAnnoName}), nil, nil, val(r.FieldAnnoValue))
 	}
 	for _, r := range s.Anno.View {
-		add("(RAnno OView)", r.AppName, in.names([]string{r.ViewName, r.ViewAnnoName}), nil, nil, "TyNil")
+		addx("(RAnno OView)", r.AppName, in.names([]string{r.ViewName, r.ViewAnnoName}), nil, nil, val(r.ViewAnnoValue))
+	}
+	// source contexts of the elements
+	for _, r := range s.Src.App {
+		addx("(RSrc OApp)", r.AppName, "[]", nil, nil, src(r.AppSrc, r.AppSrcs))
+	}
+	for _, r := range s.Src.Mixin {
+		addx("(RSrc OMixin)", r.AppName, in.names(r.MixinName), nil, nil, src(r.MixinSrc, r.MixinSrcs))
+	}
+	for _, r := range s.Src.Ep {
+		addx("(RSrc OEp)", r.AppName, in.names([]string{r.EpName}), nil, nil, src(r.EpSrc, r.EpSrcs))
+	}
+	for _, r := range s.Src.Param {
+		addx("(RSrc OParam)", r.AppName, in.names([]string{r.EpName, r.ParamName, r.ParamLoc}), nil, []int64{int64(r.ParamIndex)}, src(r.ParamSrc, r.ParamSrcs))
+	}
+	for _, r := range s.Src.Stmt {
+		addx("(RSrc OStmt)", r.AppName, in.names([]string{r.EpName}), r.StmtIndex, nil, src(r.StmtSrc, r.StmtSrcs))
+	}
+	for _, r := range s.Src.Event {
+		addx("(RSrc OEvent)", r.AppName, in.names([]string{r.EventName}), nil, nil, src(r.EventSrc, r.EventSrcs))
+	}
+	for _, r := range s.Src.Type {
+		addx("(RSrc OType)", r.AppName, in.names([]string{r.TypeName}), nil, nil, src(r.TypeSrc, r.TypeSrcs))
+	}
+	for _, r := range s.Src.Field {
+		addx("(RSrc OField)", r.AppName, in.names([]string{r.TypeName, r.FieldName}), nil, nil, src(r.FieldSrc, r.FieldSrcs))
+	}
+	for _, r := range s.Src.View {
+		addx("(RSrc OView)", r.AppName, in.names([]string{r.ViewName}), nil, nil, src(r.ViewSrc, r.ViewSrcs))
+	}
+	// source contexts of the annotations
+	for _, r := range s.Src.Anno.App {
+		addx("(RSrcAnno OApp)", r.AppName, in.names([]string{r.AnnoName}), nil, nil, srcs(r.AnnoSrcs))
+	}
+	for _, r := range s.Src.Anno.Mixin {
+		addx("(RSrcAnno OMixin)", r.AppName, in.names(cat(r.MixinName, r.AnnoName)), nil, nil, srcs(r.AnnoSrcs))
+	}
+	for _, r := range s.Src.Anno.Ep {
+		addx("(RSrcAnno OEp)", r.AppName, in.names([]string{r.EpName, r.AnnoName}), nil, nil, srcs(r.AnnoSrcs))
+	}
+	for _, r := range s.Src.Anno.Param {
+		addx("(RSrcAnno OParam)", r.AppName, in.names([]string{r.EpName, r.ParamName, r.ParamLoc, r.AnnoName}), nil, []int64{int64(r.ParamIndex)}, srcs(r.AnnoSrcs))
+	}
+	for _, r := range s.Src.Anno.Stmt {
+		addx("(RSrcAnno OStmt)", r.AppName, in.names([]string{r.EpName, r.AnnoName}), r.StmtIndex, nil, srcs(r.AnnoSrcs))
+	}
+	for _, r := range s.Src.Anno.Event {
+		addx("(RSrcAnno OEvent)", r.AppName, in.names([]string{r.EventName, r.AnnoName}), nil, nil, srcs(r.AnnoSrcs))
+	}
+	for _, r := range s.Src.Anno.Type {
+		addx("(RSrcAnno OType)", r.AppName, in.names([]string{r.TypeName, r.AnnoName}), nil, nil, srcs(r.AnnoSrcs))
+	}
+	for _, r := range s.Src.Anno.Field {
+		addx("(RSrcAnno OField)", r.AppName, in.names([]string{r.TypeName, r.FieldName, r.AnnoName}), nil, nil, srcs(r.AnnoSrcs))
+	}
+	for _, r := range s.Src.Anno.View {
+		addx("(RSrcAnno OView)", r.AppName, in.names([]string{r.ViewName, r.AnnoName}), nil, nil, srcs(r.AnnoSrcs))
 	}
 	return "[" + strings.Join(out, ";\n ") + "]"
 }
@@ -577,16 +704,19 @@ func project(cr *caseResult) (term string, ok bool) {
 			panic(r)
 		}
 	}()
-	if cr.o1.kind == "panic" {
+	if cr.o1.kind == "panic" && cr.o1.site != "parseReturnPayload" {
 		return "", false
 	}
 	in := newInterner()
 	var mod, obs string
 	for pass := 0; pass < 2; pass++ {
 		mod = in.module(cr.m, cr.payBad)
-		obs = "None"
+		obs = "ORefused"
 		if cr.o1.kind == "ok" {
-			obs = "(Some " + in.rows(cr.o1.s) + ")"
+			obs = "(ORows " + in.rows(cr.o1.s) + ")"
+		}
+		if cr.o1.kind == "panic" {
+			obs = "OCrashed"
 		}
 		if pass == 0 {
 			in.freeze()
@@ -595,91 +725,103 @@ func project(cr *caseResult) (term string, ok bool) {
 	return fmt.Sprintf("(%s,\n %s, %s)", mod, obs, gb(in.retOK)), true
 }
 
-// ---- the harness's own reading of a return payload (independent of the arr.ai grammar in relmod.go): status and type
-// expression. ok=false when the text is outside the forms read here; such a case compares return rows without contents.
-type rty struct {
-	kind string // prim | ref | set | seq
-	name string
-	app  []string
-	elem *rty
+// ---- observed values ----
+func inFragment(p string) bool { return utf8.ValidString(p) && !strings.ContainsAny(p, "\\{") }
+
+func gstrs(ss []string) string {
+	it := make([]string, len(ss))
+	for i, s := range ss {
+		it[i] = common.GBytes(s)
+	}
+	return glist(it)
 }
 
-var (
-	reStatusOnly = regexp.MustCompile(`^(ok|error|[1-5][0-9][0-9])$`)
-	reStatusType = regexp.MustCompile(`^(ok|error|[1-5][0-9][0-9]) <: (.+)$`)
-	reRef        = regexp.MustCompile(`^(?:([A-Za-z_][A-Za-z0-9_]*(?: ?:: ?[A-Za-z_][A-Za-z0-9_]*)*)\.)?([A-Za-z_][A-Za-z0-9_]*)$`)
-	payPrims     = []string{"int32", "int64", "int", "float32", "float64", "float", "decimal", "bool", "bytes", "string", "datetime", "date", "any"}
-)
-
-func readType(t string) (*rty, bool) {
-	if strings.HasPrefix(t, "sequence of ") {
-		e, ok := readType(strings.TrimPrefix(t, "sequence of "))
-		return &rty{kind: "seq", elem: e}, ok
+func (in *interner) osrc(sc relmod.SourceContext) string {
+	return fmt.Sprintf("(Sc %s [%d;%d;%d;%d]%%N)", in.name(sc.File), sc.Start.Line, sc.Start.Col, sc.End.Line, sc.End.Col)
+}
+func (in *interner) osrcs(l []relmod.SourceContext) string {
+	it := make([]string, len(l))
+	for i, sc := range l {
+		it[i] = in.osrc(sc)
 	}
-	if strings.HasPrefix(t, "set of ") {
-		e, ok := readType(strings.TrimPrefix(t, "set of "))
-		return &rty{kind: "set", elem: e}, ok
-	}
-	for _, p := range payPrims {
-		if t == p {
-			return &rty{kind: "prim", name: p}, true
-		}
-	}
-	for _, p := range payPrims {
-		if strings.HasPrefix(t, p) { // the grammar tries PRIMITIVE first and does not come back
-			return nil, false
-		}
-	}
-	m := reRef.FindStringSubmatch(t)
-	if m == nil {
-		return nil, false
-	}
-	r := &rty{kind: "ref", name: m[2]}
-	if m[1] != "" {
-		for _, part := range strings.Split(m[1], "::") {
-			r.app = append(r.app, strings.TrimSpace(part))
-		}
-	}
-	return r, true
+	return glist(it)
 }
 
-func readPayload(p string) (status string, t *rty, ok bool) {
-	s := p
-	if i := strings.Index(s, "["); i >= 0 {
-		if !strings.HasSuffix(strings.TrimSpace(s), "]") {
-			return "", nil, false
+// an annotation value as the schema holds it (a rel.Value): arr.ai has one empty value
+func (in *interner) rval(x interface{}) string {
+	if x == nil {
+		return "RVEmpty"
+	}
+	v, ok := x.(rel.Value)
+	if !ok {
+		bail(fmt.Sprintf("annotation value of type %T", x))
+	}
+	if n, ok := v.(rel.Number); ok {
+		m, e := f64Term(float64(n))
+		return fmt.Sprintf("(RVNum %s %s)", m, e)
+	}
+	if !v.IsTrue() {
+		return "RVEmpty"
+	}
+	if s, ok := rel.AsString(v); ok {
+		return "(RVStr " + in.name(s.String()) + ")"
+	}
+	if a, ok := rel.AsArray(v); ok {
+		var it []string
+		for _, e := range a.Values() {
+			it = append(it, in.rval(e))
 		}
-		s = s[:i]
+		return "(RVArr " + glist(it) + ")"
 	}
-	s = strings.TrimSpace(s)
-	if strings.ContainsAny(s, "#\"'\t\n") || strings.Contains(s, "  ") {
-		return "", nil, false
-	}
-	if reStatusOnly.MatchString(s) {
-		return s, nil, true
-	}
-	if m := reStatusType.FindStringSubmatch(s); m != nil {
-		t, ok := readType(m[2])
-		return m[1], t, ok
-	}
-	t, ok = readType(s)
-	return "ok", t, ok
+	bail("annotation value that is neither string, number nor array: " + v.String())
+	return ""
 }
 
-func (in *interner) rtype(t *rty) string {
-	if t == nil {
-		return "None"
+// StmtRet as the schema holds it
+func styTerm(x interface{}) string {
+	switch t := x.(type) {
+	case relmod.TypePrimitive:
+		return "(SPrim " + common.GBytes(t.Primitive) + ")"
+	case relmod.TypeRef:
+		return fmt.Sprintf("(SRef %s %s)", gstrs(t.AppName), gstrs(t.TypePath))
+	case relmod.TypeSet:
+		return "(SSet " + styTerm(t.Set) + ")"
+	case relmod.TypeSequence:
+		return "(SSeq " + styTerm(t.Sequence) + ")"
 	}
-	return "(Some " + in.rtypeTerm(t) + ")"
+	bail(fmt.Sprintf("return type of unknown shape %T", x))
+	return ""
 }
-func (in *interner) rtypeTerm(t *rty) string {
-	switch t.kind {
-	case "prim":
-		return "(RPrim " + in.name(t.name) + ")"
-	case "ref":
-		return fmt.Sprintf("(RRef %s %s)", in.names(t.app), in.names([]string{t.name}))
-	case "set":
-		return "(RSet " + in.rtypeTerm(t.elem) + ")"
+
+func nvalTerm(x interface{}) string {
+	switch v := x.(type) {
+	case nil:
+		return "(NStr [])"
+	case string:
+		return "(NStr " + common.GBytes(v) + ")"
+	case map[string]interface{}:
+		if a, ok := v["a"]; ok && len(v) == 1 {
+			if l, ok := a.([]interface{}); ok {
+				it := make([]string, len(l))
+				for i, e := range l {
+					it[i] = nvalTerm(e)
+				}
+				return "(NArr " + glist(it) + ")"
+			}
+		}
 	}
-	return "(RSeq " + in.rtypeTerm(t.elem) + ")"
+	bail(fmt.Sprintf("name-value pair of unknown shape %T", x))
+	return ""
+}
+
+func retTerm(r relmod.StatementReturn) string {
+	ty := "None"
+	if r.Type != nil {
+		ty = "(Some " + styTerm(r.Type) + ")"
+	}
+	var nv []string
+	for _, k := range sortedKeys(r.Attr.Nvp) {
+		nv = append(nv, fmt.Sprintf("(%s, %s)", common.GBytes(k), nvalTerm(r.Attr.Nvp[k])))
+	}
+	return fmt.Sprintf("(XRet %s %s %s %s)", common.GBytes(r.Status), ty, gstrs(r.Attr.Modifier), glist(nv))
 }
